@@ -207,6 +207,24 @@ class FortranEngine:
         )
         labels = [self.span[t] for t in indexes]
 
+        # As in `solve_t()`, a period that cannot accommodate the model's lags
+        # and leads is an error: solve the periods before the first such
+        # period (if any) and then raise
+        infeasible = [
+            t for t in indexes
+            if t - self.lags < 0 or t + self.leads >= len(self.span)
+        ]
+        if infeasible:
+            indexes = indexes[:indexes.index(infeasible[0])]
+            labels = labels[:len(indexes)]
+
+            if len(indexes) == 0:
+                raise IndexError(
+                    f'Position `t` ({infeasible[0]}) cannot accommodate the lags ({self.lags}) '
+                    f'and leads ({self.leads}) of the current model instance '
+                    f'({len(self.span)} periods in span)'
+                )
+
         # Solve: Add 1 to `indexes` to go from zero-based (Python) to one-based
         #        (Fortran) indexing
         solved_values, convergences, iterations, error_codes = self.ENGINE.solve(
@@ -305,6 +323,13 @@ class FortranEngine:
                     f'with uncaught error code {error_code} after {iteration} iteration(s)'
                 )
 
+        if infeasible:
+            raise IndexError(
+                f'Position `t` ({infeasible[0]}) cannot accommodate the lags ({self.lags}) '
+                f'and leads ({self.leads}) of the current model instance '
+                f'({len(self.span)} periods in span)'
+            )
+
         return labels, indexes, solved
 
     def solve_t(
@@ -377,6 +402,19 @@ class FortranEngine:
 
         if errors not in self._ERROR_OPTIONS:
             raise ValueError(f'Invalid `errors` argument: {errors}')
+
+        # Error if the period cannot accommodate the model's lags and leads
+        # (as in the pure-Python `solve_t()`)
+        t_position = t
+        if t_position < 0:
+            t_position += len(self.span)
+
+        if t_position - self.lags < 0 or t_position + self.leads >= len(self.span):
+            raise IndexError(
+                f'Position `t` ({t}) cannot accommodate the lags ({self.lags}) '
+                f'and leads ({self.leads}) of the current model instance '
+                f'({len(self.span)} periods in span)'
+            )
 
         # Optionally copy initial values from another period
         if offset:
